@@ -5,6 +5,7 @@
 From ACV Require Import Base.Strs Model.Graph Model.Rules Model.Report Model.ReportRef Model.Engine.
 From ACV Require Import Proofs.ReportProofs Proofs.EngineProofs Extracted.ReportFacts.
 From ACV Require Import Model.Yaml Model.ProfileParser Proofs.TextSemantics.
+From ACV Require Import Model.ReportJson Proofs.ReportJsonProofs.
 
 (* ties: conforms is computed from the violation list only; the three lists are walked in the order and with
    the level / id prefix the model uses; dateCreated and result are guarded as modelled *)
@@ -69,6 +70,47 @@ Example C03_example :
   /\ spec_report m c (build_report m c) = true.
 Proof. vm_compute. repeat split. Qed.
 
+(* On the BYTES of the report (Model/ReportJson.v: BuildReport over the value the policy returns, down to encoding/json; compared
+   byte for byte with the library's report in the C03, C12, C13 and C14 runs): what the report node says, for every value the
+   policy can return and every configuration. *)
+Theorem C03_bytes_header : forall top name vs ws is c j,
+  jget "profile" top = Some (JStr name) -> jget "violation" top = Some (JArr vs) ->
+  jget "warning" top = Some (JArr ws) -> jget "info" top = Some (JArr is) ->
+  build_report_json (JObj top) c = Some j ->
+  exists report a b d,
+    report_node j = Some report
+    /\ build_level_json Violation 0 vs = Some a /\ build_level_json Warning 0 ws = Some b /\ build_level_json Info 0 is = Some d
+    /\ jget "profileName" report = Some (JStr name)
+    /\ jget "conforms" report = Some (JBool (match vs with [] => true | _ => false end))
+    /\ jget "dateCreated" report = (if include_time c then Some (JStr (time_text c)) else None)
+    /\ jget "result" report = (match (a ++ b ++ d)%list with [] => None | rs => Some (JArr rs) end)
+    /\ context_of j = Some (JObj (match (a ++ b ++ d)%list with [] => conforms_context c | _ => validation_context c end)).
+Proof. exact report_header. Qed.
+Theorem C03_bytes_severity : forall l i raw r, build_validation l i raw = Some r ->
+  match r with JObj fields => jget "resultSeverity" fields = Some (JStr (severity_iri l)) | _ => False end.
+Proof. exact result_severity. Qed.
+Theorem C03_bytes_conforms_iff_no_violation : forall top name vs ws is c j report a b d,
+  jget "profile" top = Some (JStr name) -> jget "violation" top = Some (JArr vs) ->
+  jget "warning" top = Some (JArr ws) -> jget "info" top = Some (JArr is) ->
+  build_report_json (JObj top) c = Some j ->
+  report_node j = Some report ->
+  build_level_json Violation 0 vs = Some a -> build_level_json Warning 0 ws = Some b -> build_level_json Info 0 is = Some d ->
+  (jget "conforms" report = Some (JBool true) <->
+   Forall (fun r => match r with JObj fields => jget "resultSeverity" fields <> Some (JStr (severity_iri Violation)) | _ => True end) (a ++ b ++ d)%list).
+Proof. exact conforms_iff_no_violation. Qed.
+Theorem C03_bytes_config_changes_only_the_date : forall m c c' j j' r r',
+  build_report_json m c = Some j -> build_report_json m c' = Some j' ->
+  report_node j = Some r -> report_node j' = Some r' ->
+  forall k, k <> "dateCreated"%string -> jget k r = jget k r'.
+Proof. exact config_changes_only_the_date. Qed.
+(* non-vacuity: one warning, time included *)
+Example C03_bytes_example :
+  build_report_text (JObj [("profile", JStr "P"); ("violation", JArr []); ("info", JArr []);
+                           ("warning", JArr [JObj [("@type", JArr [JStr "T"]); ("focusNode", JStr "n"); ("trace", JArr [JObj [("@type", JArr [JStr "U"])]])]])])
+                    {| include_time := true; time_text := "2031-03-04T05:06:07Z"; report_iri := "r"; lexical_iri := "l" |}
+  <> None.
+Proof. vm_compute. discriminate. Qed.
+
 Print Assumptions C03_tie_conforms.
 Print Assumptions C03_tie_levels.
 Print Assumptions C03_tie_report_node.
@@ -81,3 +123,7 @@ Print Assumptions C03_config_changes_nothing_else.
 Print Assumptions C03_severity_of_level.
 Print Assumptions C03_conforms_from_text.
 Print Assumptions C03_model_meets_spec.
+Print Assumptions C03_bytes_header.
+Print Assumptions C03_bytes_severity.
+Print Assumptions C03_bytes_conforms_iff_no_violation.
+Print Assumptions C03_bytes_config_changes_only_the_date.
